@@ -281,8 +281,9 @@ def profile_functions(fn, args):
     def prof(frame, event, arg):
         if event == 'call':
             f = frame.f_code.co_filename
-            if f.startswith('/repo/xlcalculator'):
-                seen.add(f[len('/repo/'):-3].replace('/', '.') + ':' + frame.f_code.co_qualname)
+            i = f.find('/xlcalculator/')
+            if i >= 0 and '/site-packages/' not in f and '/verif/' not in f:
+                seen.add(f[i + 1:-3].replace('/', '.') + ':' + frame.f_code.co_qualname)
     sys.setprofile(prof)
     try:
         try:
